@@ -614,12 +614,13 @@ def run(rep, ctx):
     # .sol file, 2 print the primal, 4 print the dual values, 8 suppress the solve message)
     w1 = rep.rule("C09.W1", "TABLE", "the application's solution handler writes the .sol file iff -AMPL is given or bit 1 of wantsol is set, and without -AMPL "
                   "prints the message unless bit 8 is set (evaluation over -AMPL x wantsol 0..15)", floor=2)
-    Fw = Facts(export_many([dict(unit=MM, fn=[r"mp::internal::AppSolutionHandlerImpl::HandleSolution"], repo=repo)]))
+    Fw = Facts(export_many([dict(unit=MM, fn=[r"mp::internal::AppSolutionHandlerImpl::HandleSolution"], closure=1,
+                            closure_roots=r"AppSolutionHandlerImpl::HandleSolution$", repo=repo)]))
     hs = [g for g in Fw.funcs if not g.is_dependent() and g.cfg is not None and g.qn == "mp::internal::AppSolutionHandlerImpl::HandleSolution"]
     if not hs:
         raise AnalysisBroken("C09.W1: AppSolutionHandlerImpl::HandleSolution not found")
     H = sorted(hs, key=lambda g: g.full)[0]
-    bad_sol, bad_out, ncase = [], [], 0
+    bad_sol, bad_out, ncase, box_w = [], [], 0, {}
     for ampl_ in (0, 1):
         for ws_ in range(16):
             ev_ = []
@@ -638,8 +639,17 @@ def run(rep, ctx):
                         ev_.append("msg")
                         return 0
                     if cn == "PrintSolution":
-                        a0 = strip(call_args(n_)[0])
-                        ev_.append("primal" if a0.get("declId") == H.params[2]["declId"] else "dual" if a0.get("declId") == H.params[3]["declId"] else "other")
+                        try:
+                            a0 = box_w["mi"].expr(call_args(n_)[0], env_, 0)     # the vector printed: the handler's values (111) or dual values (222)
+                        except AnalysisBroken:
+                            a0 = None
+                        for _ in range(4):           # a pointer handed on to a helper arrives as an opaque (expression, caller's environment) pair
+                            if isinstance(a0, tuple) and len(a0) == 3 and a0[0] == "obj" and a0[1] is not None:
+                                try:
+                                    a0 = box_w["mi"].expr(a0[1], a0[2], 0)
+                                except AnalysisBroken:
+                                    a0 = None
+                        ev_.append({111: "primal", 222: "dual"}.get(a0 if isinstance(a0, int) else None, "other"))
                         return 0
                     if cn in ("operator<<", "HandleOutput", "c_str", "output_handler", "num_vars", "num_algebraic_cons", "stub", "builder", "pad", "solver"):
                         return 0
@@ -648,8 +658,9 @@ def run(rep, ctx):
                 return None
             mi = MiniInt(Fw, atom_w)
             mi.select_only = True
+            box_w["mi"] = mi
             try:
-                mi.call(H, [0, 0, 0, 0, 0])
+                mi.call(H, [0, 0, 111, 222, 0])
             except AnalysisBroken as e_:
                 if "without a return" not in str(e_):
                     raise AnalysisBroken("C09.W1: HandleSolution: %s" % e_)
